@@ -1,4 +1,5 @@
 """C18 - no flow draws people out of an empty compartment."""
+import copy
 import itertools
 from .common import *  # noqa
 
@@ -15,6 +16,20 @@ def run(tier, seed):
     progs = [g.program({"kind_pool": POOL, "requests": False, "state_rates": False, "nsteps": 4,
                         "t0": g.rng.choice(["0", "0", "1", "5/2"]),   # time-dependent rates stay non-negative for t >= 0
                         "h": g.rng.choice(["1/8", "1/16"])}) for _ in range(n)]
+    # a differently wired twin right after a model (same compartment names, same flow names and classes, one
+    # transition re-routed), executed in the same interpreter: nothing of the first may leak into the second
+    twins = []
+    for p in progs:
+        twins.append(p)
+        tr = [i for i, o in enumerate(p["ops"]) if o["op"] == "flow" and o["kind"] == "transition"
+              and not any(x["op"] == "strat" for x in p["ops"][:i])]
+        if tr and g.rng.random() < 0.4 and len(p["comps"]) >= 3:
+            q = copy.deepcopy(p)
+            o = q["ops"][g.rng.choice(tr)]
+            others = [c for c in q["comps"] if c not in (o["src"], o["dst"])]
+            o["src"] = g.rng.choice(others)
+            twins.append(q)
+    progs = twins
     out = []
     for p, st in with_struct(progs):
         if st is None:
@@ -46,7 +61,7 @@ def run(tier, seed):
         if a.get("build_error") is None and any("comp_rates" in o and any(v != "0/1" for v in o["comp_rates"]) for o in (a.get("obs") or [])):
             nontrivial.add(checklib.signature(p))
     return {"programs": out, "explore": ex, "distinct_nontrivial": len(nontrivial),
-            "rule": "models without absolute flows, non-negative rates / adjustments / mixing / infectiousness (zero adjustments "
+            "rule": "(40% of the models are followed, in the same interpreter, by a twin with one transition re-routed) models without absolute flows, non-negative rates / adjustments / mixing / infectiousness (zero adjustments "
                     "included); states on the boundary of the orthant: random subsets (quick) or every proper subset (thorough, "
                     "<= 5 compartments) of compartments set to 0 or -2^-20, every mixing category kept positive; compared with the "
                     "model and, on the implementation, sign of comp_rates of every empty compartment, and min(outputs) of the "
